@@ -26,7 +26,7 @@ import (
 )
 
 // realElectorScenario runs the real rateLimiter with the REAL elector (client-go leader election on lease objects of a
-// fake kube clientset) and its real periodic loops (Run: sync/leaderCheck every second). The server gains the shard and
+// fake kube clientset) and the periodic leaderCheck (every second, as rateLimiter.sync does). The server gains the shard and
 // serves; then its lease renewals start failing (the process stays alive) and nobody takes over for a while; later another
 // identity takes the lease.
 //
@@ -75,15 +75,31 @@ func realElectorScenario(r *vkit.R, g *vkit.Rand) {
 		_ = up.Indexer.Add(buildUpstream(u, 100))
 	}
 	rl, h := limiter.VerifNewRateLimiter(gatewayfake.NewSimpleClientset(), options.RateLimitOptions{ShardingCount: 1, LimitStore: "local", Identity: identity, LeaderElectionConfiguration: cfg}, el, up)
-	stop := make(chan struct{})
-	defer close(stop)
-	go rl.Run(stop)
+	// The real election plus the periodic leaderCheck exactly as rateLimiter.sync runs it (every second). rateLimiter.Run
+	// itself is not used: it also starts cleanupUnknownCondition at t=0, which iterates limitStoreMap without the lock while
+	// the first election inserts its store (a "concurrent map iteration and map write" crash of the process, not this
+	// property's subject).
+	ectx, ecancel := context.WithCancel(context.Background())
+	defer ecancel()
+	go el.Run(ectx)
+	go func() {
+		t := time.NewTicker(time.Second)
+		defer t.Stop()
+		for {
+			select {
+			case <-ectx.Done():
+				return
+			case <-t.C:
+				h.LeaderCheck()
+			}
+		}
+	}()
 
 	var trace []string
 	logf := func(f string, a ...interface{}) { trace = append(trace, fmt.Sprintf(f, a...)) }
 	wit := func(extra map[string]interface{}) map[string]interface{} {
 		w := map[string]interface{}{"identity": identity, "upstreams": ups, "trace": trace, "leaseDuration": leaseDuration.String(), "renewDeadline": renewDeadline.String(), "retryPeriod": retryPeriod.String(),
-			"how": "limiter.VerifNewRateLimiter with the real elector.NewLeaderElector (leases on k8s fake clientset), rateLimiter.Run(stop); a reactor fails this identity's lease updates while 'partitioned'"}
+			"how": "limiter.VerifNewRateLimiter with the real elector.NewLeaderElector (leases on k8s fake clientset), elector.Run + leaderCheck every second; a reactor fails this identity's lease updates while 'partitioned'"}
 		for k, v := range extra {
 			w[k] = v
 		}
